@@ -138,6 +138,7 @@ def body_polylike(env, kinds=1, shape='triangle', nrows=3, xperms=None, yperms=N
         from .c08 import install_path_stub
         install_path_stub()
         _clamp_linspace()
+        _plain_constant_results()
     xkind, ykind = KINDS[kinds]
     if env.symbolic:
         # rotated regions index the category positions by symbolic masks: keep those position arrays inside the shim
@@ -173,6 +174,34 @@ def body_polylike(env, kinds=1, shape='triangle', nrows=3, xperms=None, yperms=N
             ins = (a >= -hw + band) & (a <= hw - band) & (b >= -hh + band) & (b <= hh - band)
             out = (a <= -hw - band) | (a >= hw + band) | (b <= -hh - band) | (b >= hh + band)
             return ins, out
+    elif shape == 'annulus':
+        # (the class accepts only plain numbers as parameters: centre and radii are enumerated, the data values stay symbolic)
+        from glue.core.roi import CircularAnnulusROI
+        xc, yc = [(1.0, 1.0), (0.625, 1.25), (1.5, 0.25)][env.choice('centre', 3)]
+        rin, rout = [(0.5, 1.5), (0.75, 1.125)][env.choice('radii', 2)]
+        roi = CircularAnnulusROI(xc, yc, rin, rout)
+        f = math.cos(math.pi / NPOLY)
+
+        def d_ge(px, py, R2):
+            # (px-xc)^2 + (py-yc)^2 >= R2 with one coordinate a concrete category position: linear in the other one
+            c, v = (R2 - float(px - xc) ** 2, py - yc) if xkind == 'cat' else (R2 - float(py - yc) ** 2, px - xc)
+            if c <= 0:
+                return finite(v)
+            return (v >= math.sqrt(c)) | (v <= -math.sqrt(c))
+
+        def d_le(px, py, R2):
+            c, v = (R2 - float(px - xc) ** 2, py - yc) if xkind == 'cat' else (R2 - float(py - yc) ** 2, px - xc)
+            if c < 0:
+                return ~finite(v)
+            return (v <= math.sqrt(c)) & (v >= -math.sqrt(c))
+
+        def classify(px, py):
+            # polygon approximation: both circles are replaced by inscribed polygons
+            # (the polygon of an annulus has a zero-width seam joining the two circles at angle 0: like every polygon edge it
+            # is a boundary, and positions within the band of it are not judged)
+            seam = (py >= yc - 1e-6) & (py <= yc + 1e-6) & (px >= xc)
+            ins = d_ge(px, py, rin * rin * (1 + 1e-3)) & d_le(px, py, (rout * f) ** 2 * (1 - 1e-3)) & ~seam
+            return ins, d_le(px, py, (rin * f) ** 2 * (1 - 1e-3)) | d_ge(px, py, rout * rout * (1 + 1e-3))
     elif shape == 'circle':
         r = 1.25
         roi = CircularROI(1.0 + dx, 1.0 + dy, r)
@@ -252,6 +281,21 @@ def _numeric_conic(env, shape, nrows, dx, dy):
 
 
 
+def _plain_constant_results():
+    """points_inside_poly on purely concrete input returns constants inside the shim (its work arrays are created by the
+    patched constructors); callers index concrete arrays with the result, so constants are handed back as plain booleans"""
+    import glue.utils.geometry as geo
+    from vtools import symnp as sn
+    f = geo.points_inside_poly
+    if getattr(f, '_verif_plain', False):
+        return
+
+    def points_inside_poly(x, y, vx, vy):
+        return sn.plain_if_constant(f(x, y, vx, vy))
+    points_inside_poly._verif_plain = True
+    geo.points_inside_poly = points_inside_poly
+
+
 def _clamp_linspace():
     """the 100-vertex polygon approximation of circles/ellipses is reduced to NPOLY+1 vertices while exploring
     (the name np.linspace in glue.core.roi is wrapped; function bodies untouched)"""
@@ -280,11 +324,13 @@ def harnesses(tier):
                           wall_s=1800, max_paths=500000,
                           bounds=dict(axes=(xk, yk), rows=nrows, categories=3, category_orders='all 6', regions=['x range', 'y range', 'RangeROI', 'rectangle'],
                                       bounds='symbolic')))
-    shapes = ['triangle', 'box', 'L', 'circle', 'ellipse', 'rotrect']
+    shapes = ['triangle', 'box', 'L', 'circle', 'ellipse', 'rotrect', 'annulus']
     for k, (xk, yk) in enumerate(KINDS):
         for sh in shapes:
-            if tier == 'quick' and (sh == 'box' or (sh in ('circle', 'ellipse') and xk != yk)) and sh != 'rotrect':
+            if tier == 'quick' and (sh == 'box' or (sh in ('circle', 'ellipse') and xk != yk)):
                 continue          # (mixed axes with the 9-gon of a circle: several minutes of solver time -> thorough tier)
+            if sh == 'annulus' and xk == yk:
+                continue          # (numeric axes: the region itself is evaluated, covered by C08; two categorical axes: nothing symbolic)
             th = None
             if sh == 'rotrect' and tier == 'quick' and (xk, yk) != ('num', 'num'):
                 th = [math.pi / 2, 0.6]
